@@ -40,6 +40,8 @@ TRUSTED_BASE = [
 
 def setup_paths():
     """Make the implementation importable in this process (shims first)."""
+    for v in ("OMP_NUM_THREADS", "OPENBLAS_NUM_THREADS", "MKL_NUM_THREADS"):
+        os.environ.setdefault(v, "1")
     shims = os.path.join(VERIF, "shims")
     for p in (REPO, shims):
         if p in sys.path:
@@ -338,6 +340,11 @@ class Check:
         with open(os.path.join(EVIDENCE, "%s.json" % self.pid), "w") as f:
             json.dump(ev, f, indent=1, default=str)
         shutil.rmtree(self.scratch, ignore_errors=True)
+        if any(not v[2] for v in self.violations):
+            # a concrete failing input exists: obligations/correspondences that broke in the same
+            # run are listed in the evidence notes instead of as separate violation lines
+            cov["notes"] = cov["notes"] + ["also broken: %s (%s)" % (v[0], v[1]) for v in self.violations if v[2]]
+            self.violations = [v for v in self.violations if not v[2]]
         for key, path, no_input in self.violations:
             print("VIOLATION property=%s replay=%s key=%s%s" % (
                 self.pid, path, re.sub(r"\s+", "_", key), " no-failing-input-found" if no_input else ""))
@@ -398,3 +405,103 @@ def safe_call(fn, *a, limit=10.0):
         return ("timeout",)
     except BaseException as e:  # noqa
         return ("exc", type(e).__name__, str(e)[:200])
+
+
+# --------------------------------------------------------------------------- standard driver
+
+def vkey(kind, why):
+    return "%s: %s" % (kind, re.sub(r"[-\d(),=.' \[\]]+", " ", why.split(":")[0]).strip())
+
+
+def standard_run(chk, mod, extra_search=None):
+    """L1 build + L2 correspondence + L3 oracle for a module exposing:
+    PROP_FILES, IMPORTS, CASE_TYPE, CHECKER, SHOW, RULE, gen_cases(rng,tier)->(cases,stats),
+    run_impl(case), oracle(case,out)->None|str, coq_case(case,out)->str|None, nontrivial(case,out)."""
+    ok, log = (True, "") if getattr(chk, "no_build", False) else chk.build(mod.PROP_FILES)
+    if not ok:
+        chk.l1_ok = False
+        chk.notes.append("L1 broken: " + log[-2500:])
+    cases, stats = mod.gen_cases(chk.rng, chk.tier)
+    cases = load_corpus(chk.pid) + cases
+    outs = pool_map(mod.run_impl, cases)
+    chk.coverage["evaluations"] += len(cases)
+    groups = {}
+    for c, o in zip(cases, outs):
+        why = mod.oracle(c, o)
+        if why:
+            groups.setdefault(vkey(c[0], why), (c, o, why))
+    for key, (c, o, why) in groups.items():
+        chk.violation(key, {"case": c, "observed": o, "why": why,
+                            "layer": "L3 direct oracle on the implementation"})
+    pairs = []
+    for c, o in zip(cases, outs):
+        if o[0] == "ok":
+            t = mod.coq_case(c, o)
+            if t is not None:
+                pairs.append((c, o, t))
+    try:
+        bad, shown = chk.coq_eval(mod.IMPORTS, mod.CASE_TYPE, mod.CHECKER, [t for _, _, t in pairs],
+                                  show=getattr(mod, "SHOW", None))
+    except CoqEvalError as e:
+        bad, shown = [], {}
+        chk.l1_ok = False
+        chk.notes.append(str(e)[-2500:])
+    chk.coverage["disagreements_checked"] += len(bad)
+    seen = set()
+    for i in bad:
+        c, o, t = pairs[i]
+        key = "correspondence %s" % c[0]
+        if key in seen:
+            continue
+        seen.add(key)
+        if mod.oracle(c, o):
+            continue
+        chk.violation(key, {"case": c, "observed": o, "model": shown.get(i), "coq_case": t,
+                            "broken": "correspondence %s (model vs implementation)" % mod.CHECKER},
+                      no_input=True)
+    if extra_search is not None:
+        extra_search(chk)
+    if not chk.l1_ok and not chk.violations:
+        chk.violation("L1 obligations", {"broken": "coq build of %s" % mod.PROP_FILES,
+                                         "log": chk.notes[-1] if chk.notes else ""}, no_input=True)
+    nt = set()
+    for c, o in zip(cases, outs):
+        if mod.nontrivial(c, o):
+            nt.add(json.dumps(c, default=str))
+    chk.coverage["distinct_nontrivial"] += len(nt)
+    chk.coverage["rule"] = mod.RULE
+    dist = dict(stats)
+    for c, o in zip(cases, outs):
+        dist["op:" + c[0]] = dist.get("op:" + c[0], 0) + 1
+        dist["outcome:" + o[0]] = dist.get("outcome:" + o[0], 0) + 1
+    chk.coverage["distribution"] = dist
+    step = max(1, len(cases) // 6)
+    chk.add_samples([{"case": cases[i], "impl": outs[i]} for i in range(0, len(cases), step)])
+    return cases, outs
+
+
+def detuple(x):
+    if isinstance(x, list):
+        return tuple(detuple(y) for y in x)
+    return x
+
+
+def load_corpus(pid):
+    p = os.path.join(VERIF, "corpus", "%s.json" % pid)
+    if os.path.exists(p):
+        return [detuple(c) for c in json.load(open(p))]
+    return []
+
+
+def standard_replay(mod, path):
+    d = json.load(open(path))
+    if "case" not in d:
+        print("replay names a broken obligation/correspondence, no concrete input:", d.get("broken"))
+        return 1
+    case = detuple(d["case"])
+    out = mod.run_impl(case)
+    why = mod.oracle(case, out)
+    print("case:", case)
+    print("implementation output:", out)
+    print("oracle:", why or "property holds on this case")
+    return 1 if why else 0
